@@ -88,3 +88,12 @@ impl PtrB {
 // write_fn(&value, slice): the caller's serialiser, not reasoned about
 #[verifier::external_body] pub fn call_write_fn<T, F>(f: &F, value: &T, slice: SliceMutB) { unimplemented!() }
 #[verifier::external_body] pub fn drop<T>(t: T) { }
+
+// ---- the region's dirty bounds (U22): the mutex-protected (lo, hi) pair as ghost state ----
+pub tracked struct DirtyW { pub ghost lo: usize, pub ghost hi: usize }
+pub struct BoundsG { pub v0: usize, pub v1: usize }
+impl RegionB {
+    // self.0.dirty_bounds.lock() ... writes through the guard: read the pair / store the pair (A_seq: one holder of the mutex at a time)
+    #[verifier::external_body] pub fn bounds_get(&self, Tracked(w): Tracked<&mut DirtyW>) -> (r: BoundsG) ensures *final(w) == *old(w), r.v0 == old(w).lo, r.v1 == old(w).hi { unimplemented!() }
+    #[verifier::external_body] pub fn bounds_set(&self, lo: usize, hi: usize, Tracked(w): Tracked<&mut DirtyW>) ensures final(w).lo == lo, final(w).hi == hi { unimplemented!() }
+}
